@@ -1458,8 +1458,7 @@ impl Vm {
       return signal;
     }
 
-    #[cfg(debug_assertions)]
-    let roots_before = self.gc().temp_roots();
+    let roots_before = self.gc.borrow().temp_roots();
 
     match native.environment() {
       NativeEnvironment::StackLess => match native.call(&mut Hooks::new(self), args) {
@@ -1474,8 +1473,14 @@ impl Vm {
           }
           ExecutionSignal::OkReturn
         },
-        Call::Err(LyError::Err(error)) => self.set_error(error),
-        Call::Err(LyError::Exit(code)) => self.set_exit(code),
+        Call::Err(LyError::Err(error)) => {
+          self.release_native_roots(roots_before);
+          self.set_error(error)
+        },
+        Call::Err(LyError::Exit(code)) => {
+          self.release_native_roots(roots_before);
+          self.set_exit(code)
+        },
       },
       NativeEnvironment::Normal => {
         let mut stub = self.native_fun_stubs.pop().unwrap_or_else(|| {
@@ -1511,12 +1516,27 @@ impl Vm {
             }
             ExecutionSignal::OkReturn
           },
-          Call::Err(LyError::Err(error)) => self.set_error(error),
-          Call::Err(LyError::Exit(code)) => self.set_exit(code),
+          Call::Err(LyError::Err(error)) => {
+            self.release_native_roots(roots_before);
+            self.set_error(error)
+          },
+          Call::Err(LyError::Exit(code)) => {
+            self.release_native_roots(roots_before);
+            self.set_exit(code)
+          },
         }
       },
     }
   }}
+
+  /// a native that fails returns through `?` without popping the temporary roots it pushed:
+  /// release everything above the height the native started at
+  fn release_native_roots(&mut self, roots_before: usize) {
+    let roots_now = self.gc.borrow().temp_roots();
+    if roots_now > roots_before {
+      self.pop_roots(roots_now - roots_before);
+    }
+  }
 
   /// call a laythe function setting it as the new call frame
   unsafe fn call_closure(&mut self, closure: ObjRef<Closure>, arg_count: u8) -> ExecutionSignal { unsafe {
